@@ -173,30 +173,60 @@ structure Seq where
 
 /-! ## metricSchemaStore (index/metric_schema_store.go) -/
 
-structure Item where
-  name : Nat
-  id : Nat
-  persisted : Bool
-  deriving DecidableEq, Repr
-
+/-- `metric.Schema`: `Fields` / `TagKeys` as finite maps name ↦ (id, Persisted) with their lengths.
+Within one object a name occurs at most once (every append follows a failed `Find` on the same
+object under the store lock), so a map loses nothing. `order` keeps the names for printing only. -/
 structure Schema where
-  fields : List Item := []
-  tagKeys : List Item := []
-  deriving DecidableEq, Repr
+  field : Nat → Option (Nat × Bool) := fun _ => none
+  nFields : Nat := 0          -- len(Fields)
+  nFieldsP : Nat := 0         -- … of which Persisted
+  tagKey : Nat → Option (Nat × Bool) := fun _ => none
+  nTagKeys : Nat := 0         -- len(TagKeys)
+  nTagKeysP : Nat := 0        -- … of which Persisted
+  order : List (Bool × Nat) := []   -- (isTagKey, name), display only
 
-def Item.persist (i : Item) : Item := { i with persisted := true }
+def markP (e : Option (Nat × Bool)) : Option (Nat × Bool) := e.map (fun p => (p.1, true))
+
+/-- keep only entries that are not yet persisted, as they are read back (persisted) -/
+def newOnly (e : Option (Nat × Bool)) : Option (Nat × Bool) :=
+  match e with
+  | some (i, false) => some (i, true)
+  | _ => none
+
+def orElse (a b : Option (Nat × Bool)) : Option (Nat × Bool) :=
+  match a with
+  | some x => some x
+  | none => b
 
 namespace Schema
-def needWrite (s : Schema) : Bool := s.fields.any (!·.persisted) || s.tagKeys.any (!·.persisted)
+/-- `NeedWrite`: some field or tag key is not persisted -/
+def needWrite (s : Schema) : Bool := s.nFieldsP < s.nFields || s.nTagKeysP < s.nTagKeys
+/-- `MarkPersisted` -/
 def markPersisted (s : Schema) : Schema :=
-  { fields := s.fields.map Item.persist, tagKeys := s.tagKeys.map Item.persist }
-/-- what `Schema.Write` emits: the not yet persisted items, read back as persisted -/
+  { s with field := fun n => markP (s.field n), nFieldsP := s.nFields,
+           tagKey := fun n => markP (s.tagKey n), nTagKeysP := s.nTagKeys }
+/-- what `Schema.Write` emits (the not yet persisted items), as `UnmarshalFromPersist` reads it back -/
 def increment (s : Schema) : Schema :=
-  { fields := (s.fields.filter (!·.persisted)).map Item.persist,
-    tagKeys := (s.tagKeys.filter (!·.persisted)).map Item.persist }
-def append (a b : Schema) : Schema := { fields := a.fields ++ b.fields, tagKeys := a.tagKeys ++ b.tagKeys }
-def findField (s : Schema) (n : Nat) : Option Nat := (s.fields.find? (·.name = n)).map (·.id)
-def findTagKey (s : Schema) (n : Nat) : Option Nat := (s.tagKeys.find? (·.name = n)).map (·.id)
+  { field := fun n => newOnly (s.field n), nFields := s.nFields - s.nFieldsP, nFieldsP := s.nFields - s.nFieldsP,
+    tagKey := fun n => newOnly (s.tagKey n), nTagKeys := s.nTagKeys - s.nTagKeysP, nTagKeysP := s.nTagKeys - s.nTagKeysP,
+    order := s.order.filter (fun p => match (if p.1 then s.tagKey p.2 else s.field p.2) with
+      | some (_, false) => true
+      | _ => false) }
+/-- `snapshot.Load` appends the increments of all files to one Schema -/
+def append (a b : Schema) : Schema :=
+  { field := fun n => orElse (a.field n) (b.field n), nFields := a.nFields + b.nFields, nFieldsP := a.nFieldsP + b.nFieldsP,
+    tagKey := fun n => orElse (a.tagKey n) (b.tagKey n), nTagKeys := a.nTagKeys + b.nTagKeys, nTagKeysP := a.nTagKeysP + b.nTagKeysP,
+    order := a.order ++ b.order }
+/-- `Fields.Find(name)` -/
+def findField (s : Schema) (n : Nat) : Option Nat := (s.field n).map (·.1)
+/-- `TagKeys.Find(key)` -/
+def findTagKey (s : Schema) (n : Nat) : Option Nat := (s.tagKey n).map (·.1)
+def addField (s : Schema) (n i : Nat) : Schema :=
+  { s with field := fun n' => if n' = n then some (i, false) else s.field n', nFields := s.nFields + 1,
+           order := s.order ++ [(false, n)] }
+def addTagKey (s : Schema) (n i : Nat) : Schema :=
+  { s with tagKey := fun n' => if n' = n then some (i, false) else s.tagKey n', nTagKeys := s.nTagKeys + 1,
+           order := s.order ++ [(true, n)] }
 end Schema
 
 /-- where `genFieldID` / `genTagKeyID` read the schema -/
@@ -205,16 +235,17 @@ inductive SchemaVariant
   | lookupLocked    -- repair: memory → kv lookup after taking the lock
   deriving DecidableEq, Repr
 
-def alookup (l : List (Nat × Nat)) (k : Nat) : Option Nat := (l.find? (·.1 = k)).map (·.2)
-
 /-- `*metric.Schema` objects are shared by pointer between `mutable`, `immutable` and callers:
-a heap of objects, the two maps hold object numbers. (The LRU cache is assumed coherent and left out.) -/
+a heap of objects (each allocated for one metric, `owner`), the two maps hold object numbers.
+(The LRU cache is assumed coherent and left out.) -/
 structure SchemaStore where
   heap : Nat → Schema := fun _ => {}
+  owner : Nat → Nat := fun _ => 0
   nobj : Nat := 0
-  cur : List (Nat × Nat) := []            -- `mutable`: metric id → object
-  frz : Option (List (Nat × Nat)) := none -- `immutable`
-  disk : Nat → Option Schema := fun _ => none  -- increments of all files as `snapshot.Load` delivers them: newest first
+  cur : Nat → Option Nat := fun _ => none          -- `mutable`: metric id → object
+  curEmpty : Bool := true
+  frz : Option ((Nat → Option Nat) × Bool) := none -- `immutable` and its IsEmpty()
+  disk : Nat → Option Schema := fun _ => none      -- all persisted increments of a metric, appended
 
 /-- the pointer `GetSchema` returned -/
 inductive SPtr
@@ -224,60 +255,59 @@ inductive SPtr
 
 namespace SchemaStore
 
-def memLookup (s : SchemaStore) (m : Nat) : Option Nat :=
-  match alookup s.cur m with
-  | some o => some o
-  | none => match s.frz with
-    | some l => alookup l m
-    | none => none
+def frzMap (s : SchemaStore) : Nat → Option Nat :=
+  match s.frz with
+  | some (f, _) => f
+  | none => fun _ => none
 
-def alloc (s : SchemaStore) (sc : Schema) : SchemaStore × Nat :=
-  ({ s with heap := fun o => if o = s.nobj then sc else s.heap o, nobj := s.nobj + 1 }, s.nobj)
+def memLookup (s : SchemaStore) (m : Nat) : Option Nat :=
+  match s.cur m with
+  | some o => some o
+  | none => s.frzMap m
+
+def alloc (s : SchemaStore) (m : Nat) (sc : Schema) : SchemaStore × Nat :=
+  ({ s with heap := fun o => if o = s.nobj then sc else s.heap o,
+            owner := fun o => if o = s.nobj then m else s.owner o, nobj := s.nobj + 1 }, s.nobj)
 
 /-- `GetSchema`: memory (mutable, immutable), else the kv family (a fresh object), else nil -/
 def getSchema (s : SchemaStore) (m : Nat) : SchemaStore × SPtr :=
   match s.memLookup m with
   | some o => (s, .obj o)
   | none => match s.disk m with
-    | some sc => let r := s.alloc sc; (r.1, .obj r.2)
+    | some sc => let r := s.alloc m sc; (r.1, .obj r.2)
     | none => (s, .nil)
 
 /-- lines `if schema == nil {…}` and `s.mutable.PutIfNotExist(id, schema)` -/
 def adopt (s : SchemaStore) (m : Nat) (p : SPtr) : SchemaStore × Nat :=
   let r : SchemaStore × Nat := match p with
     | .obj o => (s, o)
-    | .nil => s.alloc {}
-  match alookup r.1.cur m with
+    | .nil => s.alloc m {}
+  match r.1.cur m with
   | some _ => r
-  | none => ({ r.1 with cur := (m, r.2) :: r.1.cur }, r.2)
+  | none => ({ r.1 with cur := fun m' => if m' = m then some r.2 else r.1.cur m', curEmpty := false }, r.2)
 
 def setObj (s : SchemaStore) (o : Nat) (sc : Schema) : SchemaStore :=
   { s with heap := fun o' => if o' = o then sc else s.heap o' }
 
 def prepareFlush (s : SchemaStore) : SchemaStore :=
   match s.frz with
-  | none => { s with frz := some s.cur, cur := [] }
+  | none => { s with frz := some (s.cur, s.curEmpty), cur := fun _ => none, curEmpty := true }
   | some _ => s
 
-def commitOne (heap : Nat → Schema) (disk : Nat → Option Schema) (e : Nat × Nat) : Nat → Option Schema :=
-  let sc := heap e.2
-  if sc.needWrite then
-    fun m => if m = e.1 then some (sc.increment.append ((disk m).getD {})) else disk m
-  else disk
-
-/-- `Flush` up to `flusher.Close()` -/
+/-- `Flush` up to `flusher.Close()`: every schema of the immutable map that needs it is written -/
 def commit (s : SchemaStore) : SchemaStore :=
   match s.frz with
-  | some (e :: l) => { s with disk := (e :: l).foldl (commitOne s.heap) s.disk }
+  | some (f, false) =>
+    { s with disk := fun m => match f m with
+        | some o => if (s.heap o).needWrite then some ((s.heap o).increment.append ((s.disk m).getD {})) else s.disk m
+        | none => s.disk m }
   | _ => s
 
-def markAll (heap : Nat → Schema) (l : List (Nat × Nat)) : Nat → Schema :=
-  fun o => if l.any (·.2 = o) then (heap o).markPersisted else heap o
-
-/-- the locked tail of `Flush` -/
+/-- the locked tail of `Flush`: MarkPersisted on every schema of the immutable map, `immutable = nil` -/
 def finish (s : SchemaStore) : SchemaStore :=
   match s.frz with
-  | some (e :: l) => { s with heap := markAll s.heap (e :: l), frz := none }
+  | some (f, false) =>
+    { s with heap := fun o => if f (s.owner o) = some o then (s.heap o).markPersisted else s.heap o, frz := none }
   | _ => s
 
 def flush (s : SchemaStore) : SchemaStore := s.commit.finish
@@ -307,10 +337,8 @@ def fieldLocked (lim : Limits) (s : SchemaStore) (m f : Nat) (p : SPtr) : Schema
   match sc.findField f with
   | some i => (r.1, .id i)
   | none =>
-    if sc.fields.length ≥ 255 ∨ (lim.maxFields > 0 ∧ lim.maxFields < sc.fields.length) then (r.1, .tooManyFields)
-    else
-      let i := sc.fields.length
-      (r.1.setObj r.2 { sc with fields := sc.fields ++ [⟨f, i, false⟩] }, .id i)
+    if sc.nFields ≥ 255 ∨ (lim.maxFields > 0 ∧ lim.maxFields < sc.nFields) then (r.1, .tooManyFields)
+    else (r.1.setObj r.2 (sc.addField f sc.nFields), .id sc.nFields)
 
 /-- the locked part of `genTagKeyID`; createFn = `Sequence.GenTagKeySeq` -/
 def tagKeyLocked (lim : Limits) (s : SchemaStore) (ctr m k : Nat) (p : SPtr) : SchemaStore × Nat × GenOut :=
@@ -319,8 +347,8 @@ def tagKeyLocked (lim : Limits) (s : SchemaStore) (ctr m k : Nat) (p : SPtr) : S
   match sc.findTagKey k with
   | some i => (r.1, ctr, .id i)
   | none =>
-    if sc.tagKeys.length ≥ 255 ∨ (lim.maxTags > 0 ∧ lim.maxTags < sc.tagKeys.length) then (r.1, ctr, .tooManyTags)
-    else (r.1.setObj r.2 { sc with tagKeys := sc.tagKeys ++ [⟨k, ctr, false⟩] }, ctr + 1, .id ctr)
+    if sc.nTagKeys ≥ 255 ∨ (lim.maxTags > 0 ∧ lim.maxTags < sc.nTagKeys) then (r.1, ctr, .tooManyTags)
+    else (r.1.setObj r.2 (sc.addTagKey k ctr), ctr + 1, .id ctr)
 
 /-- the pointer the locked part works on: the caller's snapshot, or a lookup under the lock -/
 def lockedPtr (v : SchemaVariant) (s : SchemaStore) (m : Nat) (p : SPtr) : SchemaStore × SPtr :=
